@@ -34,7 +34,7 @@ type connPlan struct {
 }
 
 type dialPlan struct {
-	Kind string `json:"kind"` // accepted | refused | timeout | unix-missing
+	Kind string `json:"kind"` // accepted | refused | timeout | pending-stop | unix-missing | unix-backlog-full
 }
 
 type caseT struct {
@@ -83,7 +83,7 @@ func genCase(r *h.Run, phase string, idx int) caseT {
 			c.Dials = append(c.Dials, dialPlan{Kind: kinds[rng.Intn(len(kinds))]})
 		}
 	} else {
-		c.Dials = append(c.Dials, dialPlan{Kind: "unix-missing"})
+		c.Dials = append(c.Dials, dialPlan{Kind: "unix-missing"}, dialPlan{Kind: "unix-backlog-full"})
 	}
 	return c
 }
@@ -882,6 +882,80 @@ func runDials(r *h.Run, c caseT, env *outb.Env, viol func(sig, d string), rng *r
 				return false
 			}
 			r.Seen("dial_outcomes", "unix-missing/error")
+		case "unix-backlog-full":
+			// a unix listener whose accept queue is full refuses connect() at once with EAGAIN:
+			// nothing is queued, the socket stays unconnected - success may be reported only
+			// if the listener really got a connection beyond the fillers
+			dir, err := os.MkdirTemp("", "vc03u")
+			if err != nil {
+				continue
+			}
+			path := dir + "/full.sock"
+			lfd, err := syscall.Socket(syscall.AF_UNIX, syscall.SOCK_STREAM|syscall.SOCK_NONBLOCK, 0)
+			if err != nil {
+				os.RemoveAll(dir)
+				continue
+			}
+			cleanup := func(fill []int) {
+				for _, f := range fill {
+					syscall.Close(f)
+				}
+				syscall.Close(lfd)
+				os.RemoveAll(dir)
+			}
+			if err := syscall.Bind(lfd, &syscall.SockaddrUnix{Name: path}); err != nil {
+				cleanup(nil)
+				continue
+			}
+			_ = syscall.Listen(lfd, 0)
+			var fill []int
+			full := false
+			for k := 0; k < 8 && !full; k++ {
+				f, err := syscall.Socket(syscall.AF_UNIX, syscall.SOCK_STREAM|syscall.SOCK_NONBLOCK, 0)
+				if err != nil {
+					break
+				}
+				err = syscall.Connect(f, &syscall.SockaddrUnix{Name: path})
+				if err == syscall.EAGAIN {
+					full = true
+					syscall.Close(f)
+					break
+				}
+				fill = append(fill, f)
+			}
+			if !full {
+				cleanup(fill)
+				r.Count("dial_unix_backlog_setup_failed", 1)
+				continue
+			}
+			serr := env.G.DialAsyncTimeout("unix", path, 150*time.Millisecond, cb)
+			waitStable(100)
+			rs := get()
+			// what did the listener really get?
+			accepted := 0
+			for {
+				nfd, _, err := syscall.Accept(lfd)
+				if err != nil {
+					break
+				}
+				accepted++
+				syscall.Close(nfd)
+			}
+			nFill := len(fill)
+			cleanup(fill)
+			if (serr != nil && len(rs) > 0) || len(rs) > 1 {
+				viol("dial:unix-backlog-full:reported-twice", fmt.Sprintf("DialAsyncTimeout returned %v and invoked the callback %d times", serr, len(rs)))
+				return false
+			}
+			if serr == nil && len(rs) == 0 {
+				viol("dial:unix-backlog-full:no-outcome", "DialAsyncTimeout(150ms) to a unix listener with a full accept queue returned nil and never invoked its callback (stable 3 s, idle CPU)")
+				return false
+			}
+			if serr == nil && rs[0].err == nil && accepted <= nFill {
+				viol("dial:unix-backlog-full:reported-success", fmt.Sprintf("the dial callback reported success, but the listener (accept queue full, connect() answers EAGAIN) only ever got its %d filler connection(s): accepted %d", nFill, accepted))
+				return false
+			}
+			r.Seen("dial_outcomes", "unix-backlog-full/"+map[bool]string{true: "sync-error", false: "callback"}[serr != nil])
 		case "pending-stop":
 			// a dial that is still connecting (accept queue full) when the engine stops: the outcome
 			// must be reported exactly once and must not be success
